@@ -187,7 +187,7 @@ def _detect(drv, seed, kf, v, note):
     """The directed execution `reader after writer` (the WRITE source is registered and stays armed because the send buffer
     is full; then the READ source registers on the same muxnote).  Tells which variant of the library is under test:
     returns (listfix, fix)."""
-    res = _run(drv, "directed", seed * 1000 + 900, 2, 2, CFG_RAW, F_CONTINUE)
+    res = _run(drv, "directed", seed * 1000 + 900, 2, 1, CFG_RAW, F_CONTINUE)
     tr = res["trace"]
     if res["rc"] in (70, 71):
         p = save_replay(PROP, "mux_directed_fail.ndjson", src=tr)
@@ -200,7 +200,7 @@ def _detect(drv, seed, kf, v, note):
             if res["rc"] != 0:
                 p = save_replay(PROP, "mux_directed_oracle.ndjson", src=r.trace_with_header)
                 v.violation("muxnote, directed execution: API oracle failed although the trace follows Muxnote.tla: %s" % " ;; ".join(res["fails"][:3]), p)
-            v.traces += 2
+            v.traces += 1
             v.states += r.distinct
             v.transitions += r.generated
             note["library_variant"] = {"list_choice_repaired": True, "per_unote_arming": fix}
